@@ -72,6 +72,11 @@ class VariablesConfig(ImmutableBaseModel):
 
     @model_validator(mode="after")
     def _broadcast_and_transform(self, info: ValidationInfo) -> Self:
+        if getattr(self, "_is_immutable", False):
+            # This validator also runs for an object that was created and
+            # validated before, and is now used as a field value. That object
+            # may be in use elsewhere, it is left alone:
+            self = self.model_copy()  # noqa: PLW0642
         self._mutable()
 
         lower_bounds = broadcast_1d_array(
